@@ -222,6 +222,7 @@ class Path:
         self.store0 = {}         # initial arrays (for reporting)
         self.alloc0 = z3.Int('ALLOC0')
         self.nalloc = 0
+        self.alloc_base = self.alloc0
         self.pc.append(self.alloc0 >= 1)
         self.new_prefixes = []
         self.decision_cache = {}
@@ -288,6 +289,12 @@ class Path:
             if not cond:
                 raise PathEnd()
             return
+        if z3.is_and(cond):
+            # conjuncts are kept separately so that the quantifier-free ones
+            # take part in feasibility checks
+            for c in cond.children():
+                self.assume(c)
+            return
         self.pc.append(cond)
 
     # ---- heap
@@ -301,10 +308,18 @@ class Path:
         return self.store[key]
 
     def alloc_now(self):
-        return self.alloc0 + self.nalloc
+        return self.alloc_base + self.nalloc
+
+    def bump_alloc(self):
+        """a callee under contract may have allocated any number of objects"""
+        before = self.alloc_now()
+        nb = z3.Int(fresh_name('alloc'))
+        self.pc.append(nb >= before)
+        self.alloc_base, self.nalloc = nb, 0
+        return before
 
     def new_id(self):
-        i = self.alloc0 + self.nalloc
+        i = self.alloc_base + self.nalloc
         self.nalloc += 1
         return i
 
